@@ -99,8 +99,102 @@ async fn stream_case(case: &Value) -> Value {
     json!({"frames": frames, "end": end, "buflen": conn.verif_buffer_len(), "per_segment": per_segment})
 }
 
+fn content(n: usize, pat: u64) -> Vec<u8> {
+    (0..n).map(|i| ((i * 131 + pat as usize) % 251) as u8).collect()
+}
+
+fn walk(root: &std::path::Path, dir: &std::path::Path, out: &mut Vec<Value>) {
+    let mut entries: Vec<_> = match std::fs::read_dir(dir) {
+        Ok(rd) => rd.filter_map(|e| e.ok()).collect(),
+        Err(_) => return,
+    };
+    entries.sort_by_key(|e| e.file_name());
+    for e in entries {
+        let p = e.path();
+        let rel = p.strip_prefix(root).unwrap().to_string_lossy().to_string();
+        let md = match std::fs::symlink_metadata(&p) {
+            Ok(m) => m,
+            Err(_) => continue,
+        };
+        if md.is_dir() {
+            out.push(json!([rel, "d", 0, ""]));
+            walk(root, &p, out);
+        } else {
+            let data = std::fs::read(&p).unwrap_or_default();
+            out.push(json!([rel, "f", data.len(), hex(&sha1(&data))]));
+        }
+    }
+}
+
+/// C03/C04/C17: parse a torrent, store its pieces as <SHA1>.piece files in a scratch start
+/// directory inside a canary parent, run the real Extractor, list everything that exists afterwards.
+async fn extract_case(case: &Value) -> Value {
+    let scratch = std::path::PathBuf::from(case["scratch"].as_str().unwrap());
+    let canary = scratch.join("canary");
+    let run = canary.join("run");
+    let _ = std::fs::remove_dir_all(&scratch);
+    std::fs::create_dir_all(&run).unwrap();
+    let torrent_hex = case["torrent"].as_str().unwrap().replace(&hex(b"@ROOT@"), &hex(canary.join("abs_target").to_string_lossy().as_bytes()));
+    // the bencoded length prefix of a string containing @ROOT@ is fixed up by the caller through "root_len"
+    let torrent = unhex(&torrent_hex);
+    let res = extract_inner(case, &torrent, &run).await;
+    let mut tree = vec![];
+    walk(&canary, &canary, &mut tree);
+    std::env::set_current_dir("/").unwrap();
+    let _ = std::fs::remove_dir_all(&scratch);
+    let mut res = res;
+    res["tree"] = json!(tree);
+    res["canary"] = json!(canary.to_string_lossy());
+    res
+}
+
+async fn extract_inner(case: &Value, torrent: &[u8], run: &std::path::Path) -> Value {
+    let m = match guarded(|| rdest::Metainfo::from_bencode(torrent)) {
+        Ok(Ok(m)) => m,
+        Ok(Err(e)) => return json!({"parse": format!("err:{:?}", e)}),
+        Err(p) => return json!({"parse": "panic", "panic": p}),
+    };
+    std::env::set_current_dir(run).unwrap();
+    let data = content(case["content_len"].as_u64().unwrap() as usize, case["pat"].as_u64().unwrap_or(0));
+    let pl = case["pl"].as_u64().unwrap() as usize;
+    let mut stored = 0;
+    if pl > 0 {
+        for (i, chunk) in data.chunks(pl).enumerate() {
+            if i < m.pieces_num() {
+                let name = rdest::verif::hash_to_string(m.piece(i)) + ".piece";
+                std::fs::write(name, chunk).unwrap();
+                stored += 1;
+            }
+        }
+    }
+    let n = m.pieces_num();
+    let acc = guarded(|| {
+        let pls: Vec<usize> = (0..n).map(|i| m.piece_length(i)).collect();
+        let ranges: Vec<Value> = m
+            .file_piece_ranges()
+            .iter()
+            .map(|(p, a, b)| json!([p.to_string_lossy(), a.file_index, a.byte_index, b.file_index, b.byte_index]))
+            .collect();
+        json!({"piece_lengths": pls, "ranges": ranges, "total_length": m.total_length()})
+    });
+    let (tx, mut rx) = tokio::sync::mpsc::channel(4);
+    let mut ex = rdest::verif::Extractor::new(m.clone(), tx);
+    let job = tokio::spawn(async move { ex.run().await });
+    let cmd = match job.await {
+        Ok(()) => match rx.recv().await {
+            Some(rdest::verif::ExtractorCmd::Done) => "Done".to_string(),
+            Some(rdest::verif::ExtractorCmd::Fail(e)) => format!("Fail:{}", e),
+            None => "none".to_string(),
+        },
+        Err(e) => format!("panic:{}", e),
+    };
+    json!({"parse": "ok", "cmd": cmd, "pieces_num": n, "stored": stored,
+           "acc": match acc { Ok(v) => v, Err(p) => json!({"panic": p}) }})
+}
+
 async fn run_case_async(case: &Value) -> Value {
     match case["op"].as_str().unwrap_or("") {
+        "extract" => extract_case(case).await,
         "stream" => stream_case(case).await,
         _ => run_case(case),
     }
